@@ -447,6 +447,9 @@ def _division_connected(
     m = len(graph)
 
     if use_graph_primitive:
+        if not isinstance(division, IntArray1D):
+            # `division == i` must be an elementwise comparison, not a list comparison
+            division = IntArray1D(division)  # type: ignore
         for i in range(num_regions):
             region = solver.bool_array(n)
             solver.ensure(region == (division == i))
